@@ -588,6 +588,23 @@ pub fn generate(s: &mut Session, thorough: bool) -> bool {
             }
             add_event(s, "degenerate", &ws, &ps, &mut total);
         }
+        // more than 20 pad hits of exactly equal amplitude in one (column, time bin): beyond the
+        // insertion-sort threshold of `sort_unstable_by`
+        {
+            let mut ws = empty_wires();
+            let mut ps = empty_pads();
+            let len = 70;
+            let first = verif_pad_column_to_wires(5).start % (TPC_ANODE_WIRES - 8);
+            for j in 0..8 {
+                let mut v = vec![0.0; len];
+                pulse_into(&mut v, 20, 100.0 * (j + 1) as f64, &t.wire_resp);
+                ws[first + j] = Some(v);
+            }
+            for k in 0..26 {
+                pad_cloud(&mut rng, &mut ps, 5, 10 + 20 * k, 20, 1000.0, len, 0.0, &[0.5, 1.0, 0.25], false);
+            }
+            add_event(s, "degenerate", &ws, &ps, &mut total);
+        }
         // peaks on the first / last pad rows, hits in the last bins of the waveform
         {
             let mut ws = empty_wires();
